@@ -462,6 +462,7 @@ var profC18 = profile{
 	accts: [2]int{2, 3}, browsers: [2]int{1, 2}, middlewares: []string{"", "remember", "remember", "expire"},
 	tweak:      func(t *rapid.T, c *harness.Config) { c.LockAfter = rapid.IntRange(3, 6).Draw(t, "lockafter18") },
 	jsonMangle: 4,
+	badQuery:   4, badQueryForm: true,
 }
 
 func TestC18(t *testing.T) {
